@@ -201,7 +201,7 @@ def run_batch(name, kw, g, a, m, seed=None, order=3):
     return np.asarray(cfg.batch(g.copy(), a.copy(), m.copy(), **kw), float)
 
 
-def run_stream(name, kw, q0, g, a, m, seed=None, order=3, explicit_dt=False):
+def run_stream(name, kw, q0, g, a, m, seed=None, order=3, explicit_dt=False, feed_raw=False):
     """explicit_dt: the instance is built WITHOUT its sampling rate (it keeps the class default) and the step is handed to every update(dt=...) call."""
     import ahrs
     F = ahrs.filters
@@ -226,7 +226,7 @@ def run_stream(name, kw, q0, g, a, m, seed=None, order=3, explicit_dt=False):
         return np.array(Q)
     cfg = filt.registry()[name]
     inst = cfg.new(**kw)
-    return filt.stream(cfg, inst, q0, g.copy(), a.copy(), m.copy(), dt=dt)
+    return filt.stream(cfg, inst, q0, g.copy(), a.copy(), m.copy(), dt=dt, feed_raw=feed_raw)
 
 
 def outcome_equal(o1, o2):
@@ -274,6 +274,14 @@ def check_bs(case, ctx):
                             ctx.ok("batch and stream agree on where values are non-finite", np.array_equal(np.isfinite(B), np.isfinite(S)), route=r2)
                     eq, why = outcome_equal(s1, s2)
                     ctx.ok("repeating the stream gives bit-identical output", eq, {"why": why}, route=r)
+                # the idiom q = f.update(q, ...): whatever object update() returns is handed straight back as the next a-priori attitude
+                if name in STREAMERS:
+                    s4 = call(run_stream, name, kw, B[0], g, a, m, seed, order, False, True)
+                    if ctx.returned(s4, clause="streaming with the returned object fed straight back", route=r2) and s1.ok:
+                        S4 = np.asarray(s4.value, float)
+                        same4 = S4.shape == np.asarray(s1.value).shape and np.array_equal(S4, np.asarray(s1.value, float), equal_nan=True)
+                        ctx.ok("feeding update()'s own return value back gives the same stream as feeding plain arrays", same4,
+                               {"max_diff": float(np.nanmax(np.abs(S4 - np.asarray(s1.value, float)))) if S4.shape == np.asarray(s1.value).shape else None}, route=r2)
                 # the other way of telling a streamed filter its sampling step: a bare instance and dt handed to every update() call
                 s3 = call(run_stream, name, kw, B[0], g, a, m, seed, order, True)
                 if ctx.returned(s3, clause="streaming through update(dt=...) on an instance built without its rate", route=r2):
